@@ -208,6 +208,24 @@ def job_factories(j, seed):
             t.name == 'tmpl' and b_.name == 'tmpl' and cpy.name == 'tmpl' and t.comment == 'tc' and b_.comment == 'tc' and a_.name == 'run_1')
         cpy.name = 'copy'
         chk('renaming a copy does not rename the original', t.name == 'tmpl' and a_.name == 'run_1')
+        # writers leave the builder they are given as it was: saving (with or without a one-off comment) neither re-comments
+        # the builder nor accumulates content in it, so a second save writes the same document as the first
+        import io as _io
+        if not hasattr(sys.modules['scippneutron'], '__version__'):
+            sys.modules['scippneutron'].__version__ = '0.0.0'
+        wb = cif.CIF('wb', comment='original comment').with_reducers('prog').with_authors(cif.Person(name='N', corresponding=True, role='r'))
+        state = lambda b: (b.name, b.comment, list(b._reducers), len(b._authors), len(b._content), len(b._block._content) if hasattr(b, '_block') and hasattr(b._block, '_content') else None)  # noqa: E731
+        st0 = state(wb)
+        f1, f2, f3 = _io.StringIO(), _io.StringIO(), _io.StringIO()
+        wb.save(f1)
+        cif.save_cif(f2, wb, comment='one-off comment')
+        st1 = state(wb)
+        wb.save(f3)
+        chk('CIF.save / save_cif(builder, comment=...) leave the builder unchanged (name, comment, reducers, authors, content)', st0 == st1)
+        import re as _re
+        norm = lambda t_: _re.sub(r'[0-9]+', 'N', t_)  # noqa: E731  (time stamp and generated author ids differ between saves)
+        chk('a second save of the same builder writes the same document as the first (up to the time stamp and generated ids)', norm(f1.getvalue()) == norm(f3.getvalue()) and len(f1.getvalue()) > 0)
+        chk('the one-off comment of save_cif goes into that file only', 'one-off comment' in f2.getvalue() and 'one-off comment' not in f3.getvalue())
         b0 = cif.Block('n', [{'a.x': 1}])
         b1 = b0.copy()
         b1.add({'a.y': 2})
@@ -429,6 +447,18 @@ def replay_real(case):
             c3._reducers.append('x')
             if a_._reducers != ['r1']:
                 bad.append('copy shares the reducer list')
+            wb = cif.CIF('wb', comment='original comment').with_reducers('prog').with_authors(cif.Person(name='N', corresponding=True, role='r'))
+            f1, f2, f3 = _io.StringIO(), _io.StringIO(), _io.StringIO()
+            wb.save(f1)
+            cif.save_cif(f2, wb, comment='one-off comment')
+            if wb.comment != 'original comment':
+                bad.append(f'save_cif(f, builder, comment=...) changed the builder\'s comment to {wb.comment!r}')
+            wb.save(f3)
+            import re as _re
+            if _re.sub(r'[0-9]+', 'N', f1.getvalue()) != _re.sub(r'[0-9]+', 'N', f3.getvalue()):
+                bad.append(f'a second save of the same builder writes another document ({len(f1.getvalue().splitlines())} vs {len(f3.getvalue().splitlines())} lines)')
+            if 'one-off comment' not in f2.getvalue():
+                bad.append('comment= of save_cif missing from the file it was given for')
         elif which == 'models':
             from scippneutron.peaks import model as M
 
